@@ -261,6 +261,17 @@ def main():
         if not ok:
             broken.extend("axiom audit: " + p for p in problems[:5])
     discharged = len([t for t in theorems if t in axioms and set(axioms[t]) <= ALLOWED_AXIOMS]) if proof_ok and not hyg else 0
+    # thorough tier: the toolchain's independent re-checker replays every declaration of the property's compiled modules through the kernel
+    rechecked = None
+    if proof_ok and args.tier == "thorough" and os.environ.get("VERIF_LEANCHECKER", "1") != "0":
+        mods = [m for m in import_closure(lean_mods) if not m.startswith("QVerif.Driver")]
+        try:
+            rc3, out3 = sh(["lake", "env", "leanchecker", *mods], cwd=LEAN_DIR, timeout=2400)
+            rechecked = {"modules": len(mods), "ok": rc3 == 0}
+            if rc3 != 0:
+                broken.append("leanchecker rejects the compiled proof modules: " + out3[-600:])
+        except (subprocess.TimeoutExpired, FileNotFoundError) as e:
+            rechecked = {"modules": len(mods), "ok": None, "note": f"not run: {type(e).__name__}"}
 
     # ---- 2. correspondence + oracle --------------------------------------------------------
     ctx = common.Ctx(prop, args.tier, seed, model_ok=model_ok, deadline=t0 + budget)
@@ -340,6 +351,7 @@ def main():
         "checker_cmd": f"cd lean && lake build {' '.join(lean_mods)} && lake env lean .lake/audit/{prop}.lean  (#print axioms on every property theorem)",
         "trusted_base": META.get("trusted_base", []),
         "theorems": {t: axioms.get(t) for t in theorems},
+        "leanchecker": rechecked,
         "evaluations": ctx.evaluations,
         "distinct": ctx.distinct,
         "distinct_nontrivial": ctx.distinct_nontrivial,
